@@ -361,6 +361,8 @@ NPOS = -1
 
 
 LINK = [UNK]
+VARID = [0]
+ISCPP = [False]
 # Token::mLink is only ever set on bracket tokens (Tokenizer::createLinks / createLinks2 / TokenList::createAst link ( ) [ ] { } < >); for every other
 # string the evaluation runs with mLink == nullptr only, for these with both values (two runs: the tests of mLink in one chain are correlated)
 LINKABLE = set('()[]{}<>')
@@ -388,7 +390,9 @@ def _ev(n, w):
         if nm == 'Token::mLink':
             return LINK[0]
         if nm.endswith('::mVarId'):
-            return 0
+            return VARID[0]
+        if nm == 'Token::mIsCpp':
+            return ISCPP[0]
         raise Unhandled('member %s' % nm)
     if k == 'DeclRefExpr' and 'npos' in n.get('n', ''):
         return NPOS
@@ -505,10 +509,41 @@ def r33_4(ctx, F):
                'tools/matchcompiler.py:%s' % line)
 
 
+def r33_5(ctx, F):
+    ctx.rule('R33.5', 'for the words the tokTypes table types eBoolean, every token type Token::update_property_info can assign to a token with that string '
+                      '(evaluated with and without a variable id, as C and as C++) is listed in the table')
+    tt = py_toktypes(F.root)
+    words = {w: v for w, v in tt.items() if 'eBoolean' in v[0]}
+    ctx.floor('R33.5 eBoolean words in tokTypes', len(words), 2)
+    cands = [g for g in F.find('Token::update_property_info') if F.body(g) is not None]
+    body = F.body(cands[0])['body']
+    for w, (types, line) in sorted(words.items()):
+        got = set()
+        LINK[0] = False
+        try:
+            for cpp in (False, True):
+                for vid in (0, 1):
+                    if cpp and vid and w in ('true', 'false'):
+                        continue    # update_property_info throws InternalError for a C++ bool literal with a variable id
+                    ISCPP[0], VARID[0] = cpp, vid
+                    _types(body, w, got)
+        except Unhandled as e:
+            raise AnalysisBroken('Token::update_property_info uses a construct the R33.5 evaluator does not model (%s)' % e)
+        finally:
+            ISCPP[0], VARID[0] = False, 0
+        extra = got - set(types)
+        ok = not extra
+        ctx.ob('R33.5', 'word-types:%s' % w, ok, ('%r: update_property_info assigns %s, tokTypes lists %s' % (w, sorted(got), sorted(types))) if ok else
+               ('tools/matchcompiler.py:%s lists %s for the literal word %r, but Token::update_property_info (lib/token.cpp:%s) gives a token %r that has a variable id (C code '
+                'that declares a variable of that name) the type %s: the compiled pattern fails on it, the interpreted matcher (string comparison) matches'
+                % (line, sorted(types), w, cands[0]['line'], w, sorted(extra))), 'tools/matchcompiler.py:%s' % line)
+
+
 def run(ctx):
     F = ctx.facts
     r33_3(ctx, F)
     r33_4(ctx, F)
+    r33_5(ctx, F)
     ctx.rule('R33.1', 'for every %cmd% the interpreter (multiComparePercent, specialised to the command) and the match compiler (_compileCmd) test the same Token predicates, '
                       'and the interpreter consumes exactly the command')
     ctx.rule('R33.2', 'the commands the property names are in the match compiler\'s table')
